@@ -9,10 +9,13 @@ ifeq ($(flavour),asan)
 SAN := -fsanitize=address,undefined -fno-sanitize-recover=all -fsanitize-ignorelist=$(CURDIR)/sim/ubsan_ignore.txt
 else
 SAN := -fsanitize=thread
-RTDEF := -DSIM_NO_NEW_REPLACEMENT
+RTDEF := -DSIM_NO_NEW_REPLACEMENT -DSIM_TSAN_ATOMIC_POINTS
+# every atomic operation of instrumented code becomes a scheduling point (sim/simsched.cpp)
+ATOMIC_OPS := load store exchange fetch_add fetch_sub compare_exchange_strong compare_exchange_weak
+ATOMIC_WRAPS := $(foreach n,8 32 64,$(foreach op,$(ATOMIC_OPS),-Wl,--wrap=__tsan_atomic$(n)_$(op)))
 endif
 COV := -fsanitize-coverage=trace-pc-guard
-LDFLAGS := $(SAN) -lpugixml -pthread -Wl,--wrap=__cxa_guard_acquire -Wl,--wrap=__cxa_guard_release -Wl,--wrap=__cxa_guard_abort
+LDFLAGS := $(SAN) -lpugixml -pthread -Wl,--wrap=__cxa_guard_acquire -Wl,--wrap=__cxa_guard_release -Wl,--wrap=__cxa_guard_abort $(ATOMIC_WRAPS)
 
 HARNESS_SRC := $(wildcard harness/*.cpp)
 LIB_SRC := $(wildcard $(REPO)/src/common/*.cpp $(REPO)/src/csv/*.cpp $(REPO)/src/msgpack/*.cpp)
